@@ -13,6 +13,7 @@ CLAUSES = ["", "plain", "a$b", "a{b}", "${a}", "\\${a}", "\\$[a]", "\\\\${a}", "
 
 class C06(Prop):
     id = "C06"
+    serial = True
     rule = ("op parse (hook parse_token = Token::parse) on every string over {$,{,},[,\\,:,a,b} up to length L (exhaustive) "
             "plus random strings up to length 24 biased to marker neighbourhoods, plus op params rendering each string as a "
             "parameter value; compared: token tree / parse error, rendered string. Non-trivial = contains '$' or '\\\\'; "
@@ -26,6 +27,15 @@ class C06(Prop):
         return out + super().corpus()
 
     def cases(self, tier, seed):
+        # very deep (but finite) nesting, closed and unclosed, interleaved with ordinary strings: whatever the parser does
+        # with the deep ones, the ordinary ones after them (same thread, the batch is serial) must parse as always
+        for d in ([70, 130, 260, 300] if tier == "quick" else [70, 130, 260, 300, 400]):
+            yield {"op": "parse", "s": "${" * d + "a" + "}" * d}
+            yield {"op": "parse", "s": "hello ${name}"}
+            yield {"op": "parse", "s": "${" * d + "a"}
+            yield {"op": "parse", "s": "x${a:${b}}y"}
+            yield G.P({"name": "N", "v": "${" * d + "name" + "}" * d, "w": "hello ${name}"})
+            yield G.P({"name": "N", "w": "hello ${name}"})
         L = 5 if tier == "quick" else 6
         for n in range(0, L + 1):
             for t in itertools.product(ALPHA, repeat=n):
